@@ -169,7 +169,7 @@ class DllReal:
 def run_C17(tier):
     t0 = time.time()
     L = build_dll()
-    n = 5 if tier == 'quick' else 6
+    n = int(os.environ.get("VERIF_C17_N", 0)) or (5 if tier == "quick" else 7)
     init = DllModel(n)
     hist = {init.key(): ()}
     frontier = collections.deque([init.key()])
